@@ -10,8 +10,10 @@ import (
 	"strings"
 
 	"github.com/99designs/gqlgen/graphql"
+	"github.com/99designs/gqlgen/graphql/handler/transport"
 	"github.com/vektah/gqlparser/v2"
 	"github.com/vektah/gqlparser/v2/ast"
+	"github.com/vektah/gqlparser/v2/gqlerror"
 )
 
 // A hand-built ExecutableSchema whose resolvers are deterministic functions of the operation
@@ -27,18 +29,42 @@ type Query {
 	raw: String!
 	k: String!
 	node: Node!
+	"positions whose nullability decides whether a request is valid (round 4)"
+	user(id: Int!): Node
+	pick(c: Color! = RED, ids: [Int!]!, in: In2): String!
+	shape: Shape!
+	things: [Thing!]! @deprecated(reason: "use shape")
+	stamp: Stamp
+	"reports m through transport.AddSubscriptionError (websocket only) n times, then answers"
+	boom(m: String, n: Int): String!
 }
 type Node { id: String! op: String! child: Node }
 type Mutation { set(v: String): String! }
-type Subscription { tick(n: Int, g: String): String! }
+type Subscription { tick(n: Int, g: String, fail: String, failAt: Int): String! }
 input In { x: String y: [Int!] }
+"an enum with deprecated values"
+enum Color { RED GREEN @deprecated(reason: "old") BLUE @deprecated }
+interface Shape { area: String! }
+type Sq implements Shape { area: String! side: Int! old: String @deprecated(reason: "gone") }
+type Circle implements Shape { area: String! r: Int! }
+union Thing = Sq | Circle | Node
+input In2 { must: Int! list: [String!]! opt: In = {x: "d"} col: Color = RED grid: [[Int!]!] legacy: String @deprecated }
+directive @tag(name: String!, n: [Int!]) repeatable on FIELD | QUERY
+scalar Stamp @specifiedBy(url: "https://example.test/stamp")
 `
 
-var schema = gqlparser.MustLoadSchema(&ast.Source{Name: "c07.graphql", Input: schemaSDL})
+func loadSchema() *ast.Schema {
+	return gqlparser.MustLoadSchema(&ast.Source{Name: "c07.graphql", Input: schemaSDL})
+}
 
-type echoSchema struct{}
+// the harness's own copy: no server ever serves from it (validity of texts for the model, websocket planning)
+var schema = loadSchema()
 
-func (echoSchema) Schema() *ast.Schema { return schema }
+// every server - the one under test and every fresh-server oracle - has a schema of its own, loaded when the server
+// is built: the *ast.Schema is the one structure every request of a server reads, it lives as long as the server
+type echoSchema struct{ s *ast.Schema }
+
+func (e echoSchema) Schema() *ast.Schema { return e.s }
 func (echoSchema) Complexity(ctx context.Context, typeName, fieldName string, childComplexity int, args map[string]any) (int, bool) {
 	return 0, false
 }
@@ -51,13 +77,13 @@ func canon(v any) string {
 	return string(b)
 }
 
-func (echoSchema) Exec(ctx context.Context) graphql.ResponseHandler {
+func (e echoSchema) Exec(ctx context.Context) graphql.ResponseHandler {
 	opCtx := graphql.GetOperationContext(ctx)
 	switch opCtx.Operation.Operation {
 	case ast.Query:
-		return graphql.OneShot(&graphql.Response{Data: execObj(ctx, opCtx, "Query", opCtx.Operation.SelectionSet, 0)})
+		return graphql.OneShot(&graphql.Response{Data: e.execObj(ctx, opCtx, "Query", opCtx.Operation.SelectionSet, 0)})
 	case ast.Mutation:
-		return graphql.OneShot(&graphql.Response{Data: execObj(ctx, opCtx, "Mutation", opCtx.Operation.SelectionSet, 0)})
+		return graphql.OneShot(&graphql.Response{Data: e.execObj(ctx, opCtx, "Mutation", opCtx.Operation.SelectionSet, 0)})
 	default:
 		if opCtx.Headers.Get(wsMarkHeader) == "" {
 			return graphql.OneShot(graphql.ErrorResponse(ctx, "subscriptions are not served over this transport"))
@@ -71,7 +97,7 @@ func (echoSchema) Exec(ctx context.Context) graphql.ResponseHandler {
 // connection while the subscription is running. The payloads echo the operation's own name and variables.
 func tickStream(ctx context.Context, opCtx *graphql.OperationContext) graphql.ResponseHandler {
 	fields := graphql.CollectFields(opCtx, opCtx.Operation.SelectionSet, []string{"Subscription"})
-	n, tok := 2, ""
+	n, tok, fail, failAt := 2, "", "", 0
 	if len(fields) > 0 {
 		args := fields[0].ArgumentMap(opCtx.Variables)
 		if v, ok := args["n"]; ok && v != nil {
@@ -82,10 +108,28 @@ func tickStream(ctx context.Context, opCtx *graphql.OperationContext) graphql.Re
 		if v, ok := args["g"].(string); ok {
 			tok = v
 		}
+		if v, ok := args["fail"].(string); ok {
+			fail = v
+		}
+		if v, ok := args["failAt"]; ok && v != nil {
+			if k, err := strconv.Atoi(fmt.Sprint(v)); err == nil {
+				failAt = k
+			}
+		}
 	}
 	i := 0
+	// `fail`: the resolver reports an error through the transport's per-operation side channel
+	// (transport.AddSubscriptionError, as a resolver does whose upstream went away): when payload number failAt has
+	// been delivered and the stream goes on, or (failAt absent / 0) when the stream ends
+	report := func(ctx context.Context) {
+		transport.AddSubscriptionError(ctx, &gqlerror.Error{Message: fail})
+	}
 	return func(ctx context.Context) *graphql.Response {
 		if i >= n || len(fields) == 0 {
+			if fail != "" && failAt == 0 && len(fields) > 0 {
+				failAt = -1
+				report(ctx)
+			}
 			return nil
 		}
 		if g := lookupGate(tok); g != nil {
@@ -100,6 +144,9 @@ func tickStream(ctx context.Context, opCtx *graphql.OperationContext) graphql.Re
 			}
 		}
 		i++
+		if fail != "" && failAt == i {
+			report(ctx)
+		}
 		out := graphql.NewFieldSet(fields)
 		for j, f := range fields {
 			out.Values[j] = graphql.MarshalString(fmt.Sprintf("%s %d/%d op=%s vars=%s", f.Name, i, n, opCtx.OperationName, canon(opCtx.Variables)))
@@ -110,11 +157,18 @@ func tickStream(ctx context.Context, opCtx *graphql.OperationContext) graphql.Re
 	}
 }
 
-func execObj(ctx context.Context, opCtx *graphql.OperationContext, typ string, sels ast.SelectionSet, depth int) []byte {
+// the abstract types an object type satisfies (fragment type conditions)
+var satisfies = map[string][]string{"Sq": {"Sq", "Shape", "Thing"}, "Circle": {"Circle", "Shape", "Thing"}, "Node": {"Node", "Thing"}}
+
+func (e echoSchema) execObj(ctx context.Context, opCtx *graphql.OperationContext, typ string, sels ast.SelectionSet, depth int) []byte {
 	if depth == 0 {
 		parkAt("exec", opCtx.Headers) // the document is in hand, nothing collected yet
 	}
-	fields := graphql.CollectFields(opCtx, sels, []string{typ})
+	sat := satisfies[typ]
+	if sat == nil {
+		sat = []string{typ}
+	}
+	fields := graphql.CollectFields(opCtx, sels, sat)
 	out := graphql.NewFieldSet(fields)
 	for i, f := range fields {
 		var s string
@@ -139,16 +193,62 @@ func execObj(ctx context.Context, opCtx *graphql.OperationContext, typ string, s
 			s = "n" + string(rune('0'+depth))
 		case "node":
 			parkAt("node", opCtx.Headers) // the parent selection set is collected, the child's is not
-			out.Values[i] = rawJSON(execObj(ctx, opCtx, "Node", f.Selections, depth+1))
+			out.Values[i] = rawJSON(e.execObj(ctx, opCtx, "Node", f.Selections, depth+1))
 			continue
 		case "child":
 			parkAt("child", opCtx.Headers)
 			if depth >= 3 {
 				out.Values[i] = graphql.Null
 			} else {
-				out.Values[i] = rawJSON(execObj(ctx, opCtx, "Node", f.Selections, depth+1))
+				out.Values[i] = rawJSON(e.execObj(ctx, opCtx, "Node", f.Selections, depth+1))
 			}
 			continue
+		case "__schema", "__type":
+			out.Values[i] = e.introRoot(ctx, opCtx, f) // intro.go: the real graphql/introspection wrappers
+			continue
+		case "user":
+			out.Values[i] = rawJSON(e.execObj(ctx, opCtx, "Node", f.Selections, depth+1))
+			continue
+		case "shape":
+			out.Values[i] = rawJSON(e.execObj(ctx, opCtx, "Sq", f.Selections, depth+1))
+			continue
+		case "things":
+			var arr graphql.Array
+			for _, t := range []string{"Sq", "Circle", "Node"} {
+				arr = append(arr, rawJSON(e.execObj(ctx, opCtx, t, f.Selections, depth+1)))
+			}
+			out.Values[i] = arr
+			continue
+		case "stamp":
+			out.Values[i] = graphql.Null
+			continue
+		case "pick":
+			s = canon(f.ArgumentMap(opCtx.Variables))
+		case "area":
+			s = "area of " + typ
+		case "side", "r":
+			out.Values[i] = graphql.MarshalInt(4)
+			continue
+		case "old":
+			out.Values[i] = graphql.Null
+			continue
+		case "boom":
+			// a resolver that reports through the websocket transport's per-operation side channel
+			args := f.ArgumentMap(opCtx.Variables)
+			m, _ := args["m"].(string)
+			n := 1
+			if v, ok := args["n"]; ok && v != nil {
+				if k, err := strconv.Atoi(fmt.Sprint(v)); err == nil {
+					n = k
+				}
+			}
+			s = "boom-http"
+			if opCtx.Headers.Get(wsMarkHeader) != "" {
+				for j := 0; j < n; j++ {
+					transport.AddSubscriptionError(ctx, &gqlerror.Error{Message: m})
+				}
+				s = "boom:" + m
+			}
 		default:
 			s = "?" + f.Name
 		}
